@@ -2,7 +2,10 @@
 
 package wallet
 
-import "sync/atomic"
+import (
+	"sync"
+	"sync/atomic"
+)
 
 // VerifRescansDone counts completed setRescanStatus calls. The call to verifRescanDone is inserted by
 // tools/wallet_prebuild.sh into a copy of wallet.go (go build -overlay); it lets the harness wait for a requested
@@ -13,3 +16,63 @@ func verifRescanDone() { atomic.AddInt64(&VerifRescansDone, 1) }
 
 // VerifRescans reads the counter.
 func VerifRescans() int64 { return atomic.LoadInt64(&VerifRescansDone) }
+
+// Step gate (C24/C25 "lagging wallet" family). tools/wallet_prebuild.sh inserts verifWalletGate() as the first
+// statement of AttachBlock and DetachBlock. With the gate off (default) it returns at once. With the gate on the
+// walletUpdater goroutine parks there until the harness hands it one token per attach / detach step: the harness
+// decides how far the wallet lags behind the chain, at block granularity, and can move the chain in between
+// (the block the updater is about to attach / detach was read BEFORE the gate, as in a real interleaving).
+var (
+	verifGateMu      sync.Mutex
+	verifGateOn      bool
+	verifGateTokens  = make(chan struct{}, 1024)
+	verifGateWaiting int32
+	verifGateSteps   int64
+)
+
+func verifWalletGate() {
+	verifGateMu.Lock()
+	on := verifGateOn
+	verifGateMu.Unlock()
+	if !on {
+		return
+	}
+	atomic.StoreInt32(&verifGateWaiting, 1)
+	<-verifGateTokens
+	atomic.StoreInt32(&verifGateWaiting, 0)
+}
+
+func verifWalletStepDone() { atomic.AddInt64(&verifGateSteps, 1) }
+
+// VerifGate switches the gate; switching it off releases a parked updater.
+func VerifGate(on bool) {
+	verifGateMu.Lock()
+	verifGateOn = on
+	verifGateMu.Unlock()
+	if !on {
+		for i := 0; i < 64; i++ {
+			select {
+			case verifGateTokens <- struct{}{}:
+			default:
+			}
+		}
+	} else {
+		for {
+			select {
+			case <-verifGateTokens:
+				continue
+			default:
+			}
+			break
+		}
+	}
+}
+
+// VerifGateWaiting: the updater is parked at the gate.
+func VerifGateWaiting() bool { return atomic.LoadInt32(&verifGateWaiting) == 1 }
+
+// VerifGateSteps: attach / detach calls completed so far.
+func VerifGateSteps() int64 { return atomic.LoadInt64(&verifGateSteps) }
+
+// VerifGateToken lets the parked updater perform one step.
+func VerifGateToken() { verifGateTokens <- struct{}{} }
